@@ -1,7 +1,7 @@
 (* C02: the scalar functions of base/timemath and core/measurements as the translator reads them
    from the current source (STGen.Gen) are the functions of the hand-written model ST.Model.Ftm. *)
 From Coq Require Import ZArith Bool List Lia.
-From ST Require Import Base.Ints Model.NtpTime Model.Ftm GenLib.GoSem.
+From ST Require Import Base.Ints Model.NtpTime Model.Ftm GenLib.GoSem GenLib.GoSemBridge.
 From STGen Require Import Gen.
 Open Scope Z_scope.
 
@@ -19,7 +19,9 @@ Qed.
 Print Assumptions gen_timemath_Inv_eq.
 
 Lemma gen_timemath_Midpoint_eq : forall x y, Gen.timemath_Midpoint x y = Ftm.midpoint x y.
-Proof. reflexivity. Qed.
+Proof.
+  intros. unfold Gen.timemath_Midpoint, Ftm.midpoint. gobridge. reflexivity.
+Qed.
 Print Assumptions gen_timemath_Midpoint_eq.
 
 (* measurements.Measurement {Timestamp, Offset, Error} against the model's record: the model keeps
@@ -33,9 +35,14 @@ Lemma gen_measurements_midpoint_eq : forall x y,
   to_meas (Gen.measurements_midpoint x y) = Ftm.midpoint_m (to_meas x) (to_meas y).
 Proof.
   intros [xt xo xe] [yt yo ye].
-  unfold Gen.measurements_midpoint, Ftm.midpoint_m, to_meas; cbn [m_ts m_off m_err
-    Gen.measurements_Measurement_Timestamp Gen.measurements_Measurement_Offset Gen.measurements_Measurement_Error
-    Gen.set_measurements_Measurement_Offset Gen.set_measurements_Measurement_Timestamp Gen.zero_measurements_Measurement].
-  unfold time_After. destruct (yt <? xt); reflexivity.
+  unfold Gen.measurements_midpoint, Ftm.midpoint_m, Ftm.midpoint, to_meas,
+    Gen.set_measurements_Measurement_Offset, Gen.set_measurements_Measurement_Timestamp,
+    Gen.zero_measurements_Measurement, time_After, time_Add.
+  cbn [m_ts m_off m_err Gen.measurements_Measurement_Timestamp Gen.measurements_Measurement_Offset
+       Gen.measurements_Measurement_Error].
+  destruct (yt <? xt);
+    cbn [negb m_ts m_off m_err Gen.measurements_Measurement_Timestamp Gen.measurements_Measurement_Offset
+         Gen.measurements_Measurement_Error];
+    change (negb (0 =? 0)) with false; gobridge; reflexivity.
 Qed.
 Print Assumptions gen_measurements_midpoint_eq.
